@@ -83,7 +83,7 @@ def canonicalize_url(
         password = safely_unquote_auth_item(password)
 
         if quoted:
-            password = safely_quote(password)
+            password = safely_quote(password, "/:")
 
     path = safely_unquote_path(path)
 
